@@ -34,6 +34,43 @@ pub struct Solver {
 /// Raised (as a panic payload) when the engine cannot go on soundly.
 #[derive(Debug, Clone)]
 pub struct Inconclusive(pub String);
+
+/// What every worker thread is doing right now (instance, start of the current path, the decisions taken on it): read by
+/// the watchdog of `driver::run_main`, which turns a path that never comes back (concrete code under test looping for ever
+/// without asking the solver anything) into a report instead of a harness that hangs.
+pub static PATH_CLOCK: std::sync::Mutex<Vec<(std::thread::ThreadId, String, Option<std::time::Instant>, Vec<(String, bool)>)>> = std::sync::Mutex::new(Vec::new());
+thread_local! {
+    static INSTANCE_NAME: std::cell::RefCell<String> = std::cell::RefCell::new(String::new());
+}
+pub fn set_instance_name(n: &str) {
+    INSTANCE_NAME.with(|x| *x.borrow_mut() = n.to_string());
+}
+fn clock_path_start() {
+    let id = std::thread::current().id();
+    let name = INSTANCE_NAME.with(|x| x.borrow().clone());
+    let mut c = PATH_CLOCK.lock().unwrap();
+    if let Some(e) = c.iter_mut().find(|e| e.0 == id) {
+        e.1 = name;
+        e.2 = Some(std::time::Instant::now());
+        e.3.clear();
+    } else {
+        c.push((id, name, Some(std::time::Instant::now()), vec![]));
+    }
+}
+fn clock_path_end() {
+    let id = std::thread::current().id();
+    let mut c = PATH_CLOCK.lock().unwrap();
+    if let Some(e) = c.iter_mut().find(|e| e.0 == id) {
+        e.2 = None;
+    }
+}
+fn clock_decision(t: &str, b: bool) {
+    let id = std::thread::current().id();
+    let mut c = PATH_CLOCK.lock().unwrap();
+    if let Some(e) = c.iter_mut().find(|e| e.0 == id) {
+        e.3.push((t.to_string(), b));
+    }
+}
 /// payload of the panic that ends a path whose decision count exceeded the limit (already recorded as a violation)
 pub struct PathAborted;
 
@@ -420,6 +457,7 @@ impl Engine {
         }
         if let Some(&b) = self.hints.get(t) {
             self.memo.insert(t.to_string(), b);
+            clock_decision(t, b);
             return b;
         }
         let st = self.solver.check_with(t);
@@ -451,6 +489,7 @@ impl Engine {
             }
         };
         self.memo.insert(t.to_string(), b);
+        clock_decision(t, b);
         b
     }
 
@@ -704,7 +743,9 @@ pub fn explore<I>(cfg: &Config, setup: impl FnOnce() -> I, body: impl Fn(&I)) ->
             e.path_id = e.stats.paths;
             e.stats.paths += 1;
         });
+        clock_path_start();
         let r = catch_unwind(AssertUnwindSafe(|| body(&input)));
+        clock_path_end();
         let mut stop = false;
         if let Err(p) = r {
             if let Some(inc) = p.downcast_ref::<Inconclusive>() {
